@@ -144,6 +144,7 @@ class ContractDB:
         self.lemmas = {}
         self.specs = {}
         self.tables = {}
+        self.frames = {}   # target -> frame contract (alias analysis), independent of a value contract on the same target
         self.constants = {}
         self.samplers = {}
         self.files = []
@@ -177,6 +178,14 @@ class ContractDB:
                     kw = {k.arg: ast.literal_eval(k.value) for k in d.keywords}
                     c = Contract("tables", target, n, f, kw.pop("props", []), kw)
                     self.tables[target + "#" + n.name + str(n.lineno)] = c
+                elif isinstance(d, ast.Call) and isinstance(d.func, ast.Name) and d.func.id == "frame":
+                    target = ast.literal_eval(d.args[0])
+                    kw = {k.arg: ast.literal_eval(k.value) for k in d.keywords}
+                    c = Contract("frame", target, n, f, kw.pop("props", []), kw)
+                    c.options["alias_only"] = True
+                    if target in self.frames:
+                        raise SyntaxError("duplicate frame " + target)
+                    self.frames[target] = c
                 elif isinstance(d, ast.Call) and isinstance(d.func, ast.Name) and d.func.id in ("contract", "assumed", "lemma"):
                     target = ast.literal_eval(d.args[0])
                     kw = {k.arg: ast.literal_eval(k.value) for k in d.keywords}
@@ -187,7 +196,8 @@ class ContractDB:
                     tab[target] = c
 
     def for_property(self, pid):
-        cs = [c for c in self.contracts.values() if pid in c.props] + [c for c in self.tables.values() if pid in c.props]
+        cs = ([c for c in self.contracts.values() if pid in c.props] + [c for c in self.tables.values() if pid in c.props]
+              + [c for c in self.frames.values() if pid in c.props])
         ls = [c for c in self.lemmas.values() if pid in c.props]
         return cs, ls
 
